@@ -1,0 +1,23 @@
+//go:build verif
+// +build verif
+
+package accounting
+
+import (
+	"math/big"
+
+	"github.com/gauss-project/aurorafs/pkg/boson"
+)
+
+// VerifUnpaid returns a copy of the peer's unpaid balance, read under the peer lock
+// (nil if the peer record cannot be created). Observation hook for external runtime
+// monitors; compiled only with the verif build tag.
+func (a *Accounting) VerifUnpaid(peer boson.Address) *big.Int {
+	p, err := a.getAccountingPeer(peer)
+	if err != nil {
+		return nil
+	}
+	p.lock.Lock()
+	defer p.lock.Unlock()
+	return new(big.Int).Set(p.unPaidTraffic)
+}
